@@ -828,7 +828,10 @@ func (cc *Conn) handleReq(w *responsewriter.ResponseWriter[*Conn], req *pool.Mes
 	// ours, which may equal the ID of a peer's message whose handler is waiting for just that
 	// acknowledgement.
 	if req.Type() == message.Confirmable || req.Type() == message.NonConfirmable {
-		l := cc.msgIDMutex.Lock(reqMid)
+		// A duplicate that has to wait for the copy that is being handled must not hold up the
+		// receive loop: the handler of that copy may itself be waiting for a message that is queued
+		// behind the duplicate (the response to a request it issued).
+		l := cc.msgIDMutex.LockWithWait(reqMid, cc.receivedMessageReader.TryToReplaceLoop)
 		defer l.Unlock()
 	}
 
